@@ -131,6 +131,8 @@ type Config struct {
 	MaxBlockSizeMB int
 	// NewAccountGas
 	NewAccountGas int64
+	// Reserved: JSON array for the genesis "reserved_contracts" (requests the chain puts in front of every transaction)
+	Reserved string
 	// award decay: the award is multiplied by DecayRatio every DecayGap heights (0: no decay)
 	DecayGap   int64
 	DecayRatio string
@@ -159,6 +161,10 @@ func (c Config) GenesisJSON() []byte {
 	if mbs == 0 {
 		mbs = 16
 	}
+	reserved := ""
+	if c.Reserved != "" {
+		reserved = "\n\"reserved_contracts\":" + c.Reserved + ","
+	}
 	gap, ratio := int64(31536000), "1"
 	if c.DecayGap > 0 {
 		gap, ratio = c.DecayGap, c.DecayRatio
@@ -167,9 +173,9 @@ func (c Config) GenesisJSON() []byte {
 "award_decay":{"height_gap":%d,"ratio":%s},
 "gas_price":{"cpu_rate":1000,"mem_rate":1000000,"disk_rate":1,"xfee_rate":1},
 "new_account_resource_amount":%d,
-"irreversibleslidewindow":"%d",
+"irreversibleslidewindow":"%d",%s
 "genesis_consensus":{"name":"single","config":{"miner":"%s","period":3000}}}`,
-		pre, mbs, c.Award, c.NoFee, gap, ratio, c.NewAccountGas, c.Window, Addr("M")))
+		pre, mbs, c.Award, c.NoFee, gap, ratio, c.NewAccountGas, c.Window, reserved, Addr("M")))
 }
 
 // World is one node: ledger + state + managers over one vkv space.
